@@ -140,6 +140,8 @@ func semanticSiblingPredicates(c *Ctx) {
 		}
 		// ---- the assignment clause
 		var clause *ast.CaseClause
+		var clauseBody *ast.BlockStmt
+		var newNames []string
 		var clauseFd *ast.FuncDecl
 		for _, fd := range c.allFuncDecls("interp") {
 			if fd.Body == nil {
@@ -163,12 +165,62 @@ func semanticSiblingPredicates(c *Ctx) {
 				})
 				if stores {
 					clause, clauseFd = cc, fd
+					return true
 				}
+				// the clause hands the new value to a setter method of the interpreter that stores the compiled form:
+				// the setter's body is the assignment
+				ast.Inspect(cc, func(m ast.Node) bool {
+					call, ok := m.(*ast.CallExpr)
+					if !ok || clauseBody != nil {
+						return true
+					}
+					se, ok := call.Fun.(*ast.SelectorExpr)
+					if !ok {
+						return true
+					}
+					fn, ok := info.Uses[se.Sel].(*types.Func)
+					if !ok || fn.Pkg() != ip.Types {
+						return true
+					}
+					for _, hd := range c.allFuncDecls("interp") {
+						if hd.Body == nil || info.Defs[hd.Name] != fn || hd.Recv == nil || len(hd.Recv.List[0].Names) == 0 {
+							continue
+						}
+						st := false
+						ast.Inspect(hd.Body, func(x ast.Node) bool {
+							if as, ok := x.(*ast.AssignStmt); ok {
+								for _, l := range as.Lhs {
+									if se, ok := l.(*ast.SelectorExpr); ok && se.Sel.Name == sp.reField[0] {
+										st = true
+									}
+								}
+							}
+							return true
+						})
+						if st {
+							clauseBody, clauseFd = hd.Body, hd
+							for _, f := range hd.Type.Params.List {
+								if b, ok := info.TypeOf(f.Type).Underlying().(*types.Basic); ok && b.Kind() == types.String {
+									for _, nm := range f.Names {
+										newNames = append(newNames, nm.Name)
+									}
+								}
+							}
+						}
+					}
+					return true
+				})
 				return true
 			})
 		}
+		var clauseNode ast.Node
+		if clause != nil {
+			clauseNode = clause
+		} else if clauseBody != nil {
+			clauseNode = clauseBody
+		}
 		key := "sibling-pred:" + sp.name
-		if clause == nil || len(expanded) == 0 {
+		if clauseNode == nil || len(expanded) == 0 {
 			c.undecided(key, token.NoPos, "the clause assigning %s (stores to %s) or the places using the compiled %s were not found (%d uses)", sp.name, sp.reField[0], sp.name, len(expanded))
 			continue
 		}
@@ -179,7 +231,7 @@ func semanticSiblingPredicates(c *Ctx) {
 			isNil bool
 		}
 		var stores []store
-		ast.Inspect(clause, func(m ast.Node) bool {
+		ast.Inspect(clauseNode, func(m ast.Node) bool {
 			as, ok := m.(*ast.AssignStmt)
 			if !ok || len(as.Lhs) != len(as.Rhs) {
 				return true
@@ -191,7 +243,7 @@ func semanticSiblingPredicates(c *Ctx) {
 				}
 				var conds []pathCond
 				for _, pc := range pathConds(clauseFile, as) {
-					if pc.e.Pos() >= clause.Pos() && pc.e.End() <= clause.End() {
+					if pc.e.Pos() >= clauseNode.Pos() && pc.e.End() <= clauseNode.End() {
 						conds = append(conds, pc)
 					}
 				}
@@ -226,6 +278,9 @@ func semanticSiblingPredicates(c *Ctx) {
 			env := &ceEnv{info: info, vals: map[string]cv{}, alias: clauseAliases}
 			env.vals[clauseRecv+"."+sp.textField] = cvS(rep)
 			env.vals["#new"] = cvS(rep)
+			for _, nn := range newNames {
+				env.vals[nn] = cvS(rep)
+			}
 			definite, nilStored := false, false
 			for _, st := range stores {
 				if env.holds(st.conds) == 1 {
@@ -240,7 +295,7 @@ func semanticSiblingPredicates(c *Ctx) {
 				problems = append(problems, strconv.Quote(rep)+" (used in "+where+")")
 			}
 		}
-		c.check(len(problems) == 0, key, clause.Pos(),
+		c.check(len(problems) == 0, key, clauseNode.Pos(),
 			"for every class of "+sp.name+" value for which the compiled regex can be used, assigning that value stores a compiled regex ("+strconv.Itoa(len(sp.reps))+" representatives, "+strconv.Itoa(len(expanded))+" use sites, "+strconv.Itoa(len(stores))+" stores)",
 			"assigning "+sp.name+" does not definitely store a compiled regex for the values "+strings.Join(problems, ", ")+", for which the splitter uses one: it dereferences a regex that was never compiled (nil) or matches with a stale one")
 	}
